@@ -423,6 +423,213 @@ def expectedReadPathStmts : List (String × String × String) := [
 limit tests — the lines listed above are the ones in the tree now. -/
 theorem read_path_ok : readPathStmts = expectedReadPathStmts := by decide +kernel
 
+/-- the lines of tx.go and db.go that `applyKV` / `applyList` / `applySet` / `applyZSet`, `rotate`, `replay` and
+`openDB` of `Nuts.Model.DB` (and the sparse commit of `Nuts.Model.Sparse`) were written from: the dispatch on
+the record flag, the argument parsing, the structure calls, at Commit and at Open -/
+def expectedApplierStmts : List (String × String × String) := [
+  ("db.go:getActiveFileWriteOff", "for", "; ; "),
+  ("db.go:getActiveFileWriteOff", "call", "db.ActiveFile.ReadAt(int(off))"),
+  ("db.go:getActiveFileWriteOff", "if", "item == nil"),
+  ("db.go:getActiveFileWriteOff", "call", "item.Size()"),
+  ("db.go:getActiveFileWriteOff", "if", "off >= db.opt.SegmentSize"),
+  ("db.go:getActiveFileWriteOff", "if", "err == io.EOF"),
+  ("db.go:parseDataFiles", "if", "db.opt.EntryIdxMode == HintBPTSparseIdxMode"),
+  ("db.go:parseDataFiles", "range", "dataFileIds"),
+  ("db.go:parseDataFiles", "call", "int64(dataID)"),
+  ("db.go:parseDataFiles", "call", "NewDataFile(db.getDataPath(fID), db.opt.SegmentSize, db.opt.StartFileLoadingMode)"),
+  ("db.go:parseDataFiles", "for", "; ; "),
+  ("db.go:parseDataFiles", "call", "f.ReadAt(int(off))"),
+  ("db.go:parseDataFiles", "if", "entry == nil"),
+  ("db.go:parseDataFiles", "if", "db.opt.EntryIdxMode == HintKeyValAndRAMIdxMode"),
+  ("db.go:parseDataFiles", "if", "entry.Meta.status == Committed"),
+  ("db.go:parseDataFiles", "call", "db.ActiveCommittedTxIdsIdx.Insert([]byte(strconv2.Int64ToStr(int64(entry.Meta.txID))), nil, &Hint{meta: &MetaData{Flag: DataSetFlag}}, CountFlagEnabled)"),
+  ("db.go:parseDataFiles", "call", "append(unconfirmedRecords, &Record{ H: &Hint{ key: entry.Key, fileID: fID, meta: entry.Meta, dataPos: uint64(off), }, E: e, })"),
+  ("db.go:parseDataFiles", "if", "db.opt.EntryIdxMode == HintBPTSparseIdxMode"),
+  ("db.go:parseDataFiles", "call", "entry.Size()"),
+  ("db.go:parseDataFiles", "if", "err == io.EOF"),
+  ("db.go:parseDataFiles", "if", "off >= db.opt.SegmentSize"),
+  ("db.go:parseDataFiles", "call", "f.rwManager.Close()"),
+  ("db.go:parseDataFiles", "call", "f.rwManager.Close()"),
+  ("db.go:buildBPTreeIdx", "if", "!ok"),
+  ("db.go:buildBPTreeIdx", "call", "NewTree()"),
+  ("db.go:buildBPTreeIdx", "call", "db.BPTreeIdx[bucket].Insert(r.H.key, r.E, r.H, CountFlagEnabled)"),
+  ("db.go:buildActiveBPTreeIdx", "call", "append(newKey, r.H.key...)"),
+  ("db.go:buildActiveBPTreeIdx", "call", "db.ActiveBPTreeIdx.Insert(newKey, r.E, r.H, CountFlagEnabled)"),
+  ("db.go:buildOtherIdxes", "if", "r.H.meta.ds == DataStructureSet"),
+  ("db.go:buildOtherIdxes", "call", "db.buildSetIdx(bucket, r)"),
+  ("db.go:buildOtherIdxes", "if", "r.H.meta.ds == DataStructureSortedSet"),
+  ("db.go:buildOtherIdxes", "call", "db.buildSortedSetIdx(bucket, r)"),
+  ("db.go:buildOtherIdxes", "if", "r.H.meta.ds == DataStructureList"),
+  ("db.go:buildOtherIdxes", "call", "db.buildListIdx(bucket, r)"),
+  ("db.go:buildHintIdx", "call", "db.parseDataFiles(dataFileIds)"),
+  ("db.go:buildHintIdx", "if", "len(unconfirmedRecords) == 0"),
+  ("db.go:buildHintIdx", "range", "unconfirmedRecords"),
+  ("db.go:buildHintIdx", "if", "ok"),
+  ("db.go:buildHintIdx", "if", "r.H.meta.ds == DataStructureBPTree"),
+  ("db.go:buildHintIdx", "if", "db.opt.EntryIdxMode == HintBPTSparseIdxMode"),
+  ("db.go:buildHintIdx", "call", "db.buildActiveBPTreeIdx(r)"),
+  ("db.go:buildHintIdx", "call", "db.buildBPTreeIdx(bucket, r)"),
+  ("db.go:buildHintIdx", "call", "db.buildOtherIdxes(bucket, r)"),
+  ("db.go:buildHintIdx", "if", "HintBPTSparseIdxMode == db.opt.EntryIdxMode"),
+  ("db.go:buildHintIdx", "call", "db.buildBPTreeRootIdxes(dataFileIds)"),
+  ("db.go:buildSetIdx", "if", "!ok"),
+  ("db.go:buildSetIdx", "call", "set.New()"),
+  ("db.go:buildSetIdx", "if", "r.E == nil"),
+  ("db.go:buildSetIdx", "if", "r.H.meta.Flag == DataSetFlag"),
+  ("db.go:buildSetIdx", "call", "db.SetIdx[bucket].SAdd(string(r.E.Key), r.E.Value)"),
+  ("db.go:buildSetIdx", "if", "r.H.meta.Flag == DataDeleteFlag"),
+  ("db.go:buildSetIdx", "call", "db.SetIdx[bucket].SRem(string(r.E.Key), r.E.Value)"),
+  ("db.go:buildSortedSetIdx", "if", "!ok"),
+  ("db.go:buildSortedSetIdx", "call", "zset.New()"),
+  ("db.go:buildSortedSetIdx", "if", "r.E == nil"),
+  ("db.go:buildSortedSetIdx", "if", "r.H.meta.Flag == DataZAddFlag"),
+  ("db.go:buildSortedSetIdx", "call", "strings.Split(string(r.E.Key), SeparatorForZSetKey)"),
+  ("db.go:buildSortedSetIdx", "if", "len(keyAndScore) == 2"),
+  ("db.go:buildSortedSetIdx", "call", "strconv2.StrToFloat64(keyAndScore[1])"),
+  ("db.go:buildSortedSetIdx", "call", "db.SortedSetIdx[bucket].Put(key, zset.SCORE(score), r.E.Value)"),
+  ("db.go:buildSortedSetIdx", "if", "r.H.meta.Flag == DataZRemFlag"),
+  ("db.go:buildSortedSetIdx", "call", "db.SortedSetIdx[bucket].Remove(string(r.E.Key))"),
+  ("db.go:buildSortedSetIdx", "if", "r.H.meta.Flag == DataZRemRangeByRankFlag"),
+  ("db.go:buildSortedSetIdx", "call", "strconv2.StrToInt(string(r.E.Key))"),
+  ("db.go:buildSortedSetIdx", "call", "strconv2.StrToInt(string(r.E.Value))"),
+  ("db.go:buildSortedSetIdx", "call", "db.SortedSetIdx[bucket].GetByRankRange(start, end, true)"),
+  ("db.go:buildSortedSetIdx", "if", "r.H.meta.Flag == DataZPopMaxFlag"),
+  ("db.go:buildSortedSetIdx", "call", "db.SortedSetIdx[bucket].PopMax()"),
+  ("db.go:buildSortedSetIdx", "if", "r.H.meta.Flag == DataZPopMinFlag"),
+  ("db.go:buildSortedSetIdx", "call", "db.SortedSetIdx[bucket].PopMin()"),
+  ("db.go:buildListIdx", "if", "!ok"),
+  ("db.go:buildListIdx", "call", "list.New()"),
+  ("db.go:buildListIdx", "if", "r.E == nil"),
+  ("db.go:buildListIdx", "switch", "r.H.meta.Flag"),
+  ("db.go:buildListIdx", "case", "DataLPushFlag"),
+  ("db.go:buildListIdx", "call", "db.ListIdx[bucket].LPush(string(r.E.Key), r.E.Value)"),
+  ("db.go:buildListIdx", "case", "DataRPushFlag"),
+  ("db.go:buildListIdx", "call", "db.ListIdx[bucket].RPush(string(r.E.Key), r.E.Value)"),
+  ("db.go:buildListIdx", "case", "DataLRemFlag"),
+  ("db.go:buildListIdx", "call", "strings.SplitN(string(r.E.Value), SeparatorForListKey, 2)"),
+  ("db.go:buildListIdx", "call", "strconv2.StrToInt(countAndValueIndex[0])"),
+  ("db.go:buildListIdx", "call", "[]byte(countAndValueIndex[1])"),
+  ("db.go:buildListIdx", "call", "db.ListIdx[bucket].LRem(string(r.E.Key), count, value)"),
+  ("db.go:buildListIdx", "case", "DataLPopFlag"),
+  ("db.go:buildListIdx", "call", "db.ListIdx[bucket].LPop(string(r.E.Key))"),
+  ("db.go:buildListIdx", "case", "DataRPopFlag"),
+  ("db.go:buildListIdx", "call", "db.ListIdx[bucket].RPop(string(r.E.Key))"),
+  ("db.go:buildListIdx", "case", "DataLSetFlag"),
+  ("db.go:buildListIdx", "call", "strings.Split(string(r.E.Key), SeparatorForListKey)"),
+  ("db.go:buildListIdx", "call", "strconv2.StrToInt(keyAndIndex[1])"),
+  ("db.go:buildListIdx", "call", "db.ListIdx[bucket].LSet(newKey, index, r.E.Value)"),
+  ("db.go:buildListIdx", "case", "DataLTrimFlag"),
+  ("db.go:buildListIdx", "call", "strings.Split(string(r.E.Key), SeparatorForListKey)"),
+  ("db.go:buildListIdx", "call", "strconv2.StrToInt(keyAndStartIndex[1])"),
+  ("db.go:buildListIdx", "call", "strconv2.StrToInt(string(r.E.Value))"),
+  ("db.go:buildListIdx", "call", "db.ListIdx[bucket].Ltrim(newKey, start, end)"),
+  ("tx.go:buildTempBucketMetaIdx", "call", "uint32(len(key))"),
+  ("tx.go:buildTempBucketMetaIdx", "if", "bucketMetaTemp.start == nil"),
+  ("tx.go:buildTempBucketMetaIdx", "if", "compare(bucketMetaTemp.start, key) > 0"),
+  ("tx.go:buildTempBucketMetaIdx", "if", "compare(bucketMetaTemp.end, key) < 0"),
+  ("tx.go:buildBucketMetaIdx", "call", "uint32(len(start))"),
+  ("tx.go:buildBucketMetaIdx", "call", "uint32(len(end))"),
+  ("tx.go:buildBucketMetaIdx", "if", "!ok"),
+  ("tx.go:buildBucketMetaIdx", "if", "compare(bucketMeta.start, bucketMetaTemp.start) > 0"),
+  ("tx.go:buildBucketMetaIdx", "if", "compare(bucketMeta.end, bucketMetaTemp.end) < 0"),
+  ("tx.go:buildBucketMetaIdx", "if", "updateFlag"),
+  ("tx.go:buildBucketMetaIdx", "call", "os.OpenFile(tx.db.getBucketMetaFilePath(bucket), os.O_CREATE|os.O_RDWR, 0644)"),
+  ("tx.go:buildBucketMetaIdx", "call", "fd.WriteAt(bucketMeta.Encode(), 0)"),
+  ("tx.go:buildBucketMetaIdx", "if", "tx.db.opt.SyncEnable"),
+  ("tx.go:buildBucketMetaIdx", "call", "fd.Sync()"),
+  ("tx.go:buildTxIDRootIdx", "call", "strconv2.IntToStr(int(txID))"),
+  ("tx.go:buildTxIDRootIdx", "call", "tx.db.ActiveCommittedTxIdsIdx.Insert([]byte(txIDStr), nil, &Hint{meta: &MetaData{Flag: DataSetFlag}}, countFlag)"),
+  ("tx.go:buildTxIDRootIdx", "if", "len(tx.ReservedStoreTxIDIdxes) > 0"),
+  ("tx.go:buildTxIDRootIdx", "range", "tx.ReservedStoreTxIDIdxes"),
+  ("tx.go:buildTxIDRootIdx", "call", "tx.db.getBPTTxIDPath(fID)"),
+  ("tx.go:buildTxIDRootIdx", "call", "txIDIdx.Insert([]byte(txIDStr), nil, &Hint{meta: &MetaData{Flag: DataSetFlag}}, countFlag)"),
+  ("tx.go:buildTxIDRootIdx", "call", "txIDIdx.WriteNodes(tx.db.opt.RWMode, tx.db.opt.SyncEnable, 2)"),
+  ("tx.go:buildTxIDRootIdx", "call", "tx.db.getBPTRootTxIDPath(fID)"),
+  ("tx.go:buildTxIDRootIdx", "call", "NewTree()"),
+  ("tx.go:buildTxIDRootIdx", "call", "strconv2.Int64ToStr(txIDIdx.root.Address)"),
+  ("tx.go:buildTxIDRootIdx", "call", "txIDRootIdx.Insert([]byte(rootAddress), nil, &Hint{meta: &MetaData{Flag: DataSetFlag}}, countFlag)"),
+  ("tx.go:buildTxIDRootIdx", "call", "txIDRootIdx.WriteNodes(tx.db.opt.RWMode, tx.db.opt.SyncEnable, 2)"),
+  ("tx.go:buildIdxes", "for", "i := 0; i < writesLen; i++"),
+  ("tx.go:buildIdxes", "if", "entry.Meta.ds == DataStructureSet"),
+  ("tx.go:buildIdxes", "call", "tx.buildSetIdx(bucket, entry)"),
+  ("tx.go:buildIdxes", "if", "entry.Meta.ds == DataStructureSortedSet"),
+  ("tx.go:buildIdxes", "call", "tx.buildSortedSetIdx(bucket, entry)"),
+  ("tx.go:buildIdxes", "if", "entry.Meta.ds == DataStructureList"),
+  ("tx.go:buildIdxes", "call", "tx.buildListIdx(bucket, entry)"),
+  ("tx.go:buildBPTreeIdx", "if", "tx.db.opt.EntryIdxMode == HintBPTSparseIdxMode"),
+  ("tx.go:buildBPTreeIdx", "call", "[]byte(bucket)"),
+  ("tx.go:buildBPTreeIdx", "call", "append(newKey, entry.Key...)"),
+  ("tx.go:buildBPTreeIdx", "call", "tx.db.ActiveBPTreeIdx.Insert(newKey, e, &Hint{ fileID: tx.db.ActiveFile.fileID, key: newKey, meta: entry.Meta, dataPos: uint64(off), }, countFlag)"),
+  ("tx.go:buildBPTreeIdx", "if", "!ok"),
+  ("tx.go:buildBPTreeIdx", "call", "NewTree()"),
+  ("tx.go:buildBPTreeIdx", "if", "tx.db.BPTreeIdx[bucket] == nil"),
+  ("tx.go:buildBPTreeIdx", "call", "NewTree()"),
+  ("tx.go:buildBPTreeIdx", "call", "tx.db.BPTreeIdx[bucket].Insert(entry.Key, e, &Hint{ fileID: tx.db.ActiveFile.fileID, key: entry.Key, meta: entry.Meta, dataPos: uint64(off), }, countFlag)"),
+  ("tx.go:buildSetIdx", "if", "!ok"),
+  ("tx.go:buildSetIdx", "call", "set.New()"),
+  ("tx.go:buildSetIdx", "if", "entry.Meta.Flag == DataDeleteFlag"),
+  ("tx.go:buildSetIdx", "call", "tx.db.SetIdx[bucket].SRem(string(entry.Key), entry.Value)"),
+  ("tx.go:buildSetIdx", "if", "entry.Meta.Flag == DataSetFlag"),
+  ("tx.go:buildSetIdx", "call", "tx.db.SetIdx[bucket].SAdd(string(entry.Key), entry.Value)"),
+  ("tx.go:buildSortedSetIdx", "if", "!ok"),
+  ("tx.go:buildSortedSetIdx", "call", "zset.New()"),
+  ("tx.go:buildSortedSetIdx", "switch", "entry.Meta.Flag"),
+  ("tx.go:buildSortedSetIdx", "case", "DataZAddFlag"),
+  ("tx.go:buildSortedSetIdx", "call", "strings.Split(string(entry.Key), SeparatorForZSetKey)"),
+  ("tx.go:buildSortedSetIdx", "call", "strconv2.StrToFloat64(keyAndScore[1])"),
+  ("tx.go:buildSortedSetIdx", "call", "tx.db.SortedSetIdx[bucket].Put(key, zset.SCORE(score), entry.Value)"),
+  ("tx.go:buildSortedSetIdx", "case", "DataZRemFlag"),
+  ("tx.go:buildSortedSetIdx", "call", "tx.db.SortedSetIdx[bucket].Remove(string(entry.Key))"),
+  ("tx.go:buildSortedSetIdx", "case", "DataZRemRangeByRankFlag"),
+  ("tx.go:buildSortedSetIdx", "call", "strconv2.StrToInt(string(entry.Key))"),
+  ("tx.go:buildSortedSetIdx", "call", "strconv2.StrToInt(string(entry.Value))"),
+  ("tx.go:buildSortedSetIdx", "call", "tx.db.SortedSetIdx[bucket].GetByRankRange(start, end, true)"),
+  ("tx.go:buildSortedSetIdx", "case", "DataZPopMaxFlag"),
+  ("tx.go:buildSortedSetIdx", "call", "tx.db.SortedSetIdx[bucket].PopMax()"),
+  ("tx.go:buildSortedSetIdx", "case", "DataZPopMinFlag"),
+  ("tx.go:buildSortedSetIdx", "call", "tx.db.SortedSetIdx[bucket].PopMin()"),
+  ("tx.go:buildListIdx", "if", "!ok"),
+  ("tx.go:buildListIdx", "call", "list.New()"),
+  ("tx.go:buildListIdx", "switch", "entry.Meta.Flag"),
+  ("tx.go:buildListIdx", "case", "DataLPushFlag"),
+  ("tx.go:buildListIdx", "call", "tx.db.ListIdx[bucket].LPush(string(key), value)"),
+  ("tx.go:buildListIdx", "case", "DataRPushFlag"),
+  ("tx.go:buildListIdx", "call", "tx.db.ListIdx[bucket].RPush(string(key), value)"),
+  ("tx.go:buildListIdx", "case", "DataLRemFlag"),
+  ("tx.go:buildListIdx", "call", "strings.SplitN(string(value), SeparatorForListKey, 2)"),
+  ("tx.go:buildListIdx", "call", "strconv2.StrToInt(countAndValue[0])"),
+  ("tx.go:buildListIdx", "call", "tx.db.ListIdx[bucket].LRem(string(key), count, []byte(newValue))"),
+  ("tx.go:buildListIdx", "case", "DataLPopFlag"),
+  ("tx.go:buildListIdx", "call", "tx.db.ListIdx[bucket].LPop(string(key))"),
+  ("tx.go:buildListIdx", "case", "DataRPopFlag"),
+  ("tx.go:buildListIdx", "call", "tx.db.ListIdx[bucket].RPop(string(key))"),
+  ("tx.go:buildListIdx", "case", "DataLSetFlag"),
+  ("tx.go:buildListIdx", "call", "strings.Split(string(key), SeparatorForListKey)"),
+  ("tx.go:buildListIdx", "call", "strconv2.StrToInt(keyAndIndex[1])"),
+  ("tx.go:buildListIdx", "call", "tx.db.ListIdx[bucket].LSet(newKey, index, value)"),
+  ("tx.go:buildListIdx", "case", "DataLTrimFlag"),
+  ("tx.go:buildListIdx", "call", "strings.Split(string(key), SeparatorForListKey)"),
+  ("tx.go:buildListIdx", "call", "strconv2.StrToInt(keyAndStartIndex[1])"),
+  ("tx.go:buildListIdx", "call", "strconv2.StrToInt(string(value))"),
+  ("tx.go:buildListIdx", "call", "tx.db.ListIdx[bucket].Ltrim(newKey, start, end)"),
+  ("tx.go:rotateActiveFile", "if", "!tx.db.opt.SyncEnable && tx.db.opt.RWMode == MMap"),
+  ("tx.go:rotateActiveFile", "call", "tx.db.ActiveFile.rwManager.Sync()"),
+  ("tx.go:rotateActiveFile", "call", "tx.db.ActiveFile.rwManager.Close()"),
+  ("tx.go:rotateActiveFile", "if", "tx.db.opt.EntryIdxMode == HintBPTSparseIdxMode"),
+  ("tx.go:rotateActiveFile", "call", "tx.db.getBPTPath(fID)"),
+  ("tx.go:rotateActiveFile", "call", "tx.db.ActiveBPTreeIdx.SetKeyPosMap(tx.db.BPTreeKeyEntryPosMap)"),
+  ("tx.go:rotateActiveFile", "call", "tx.db.ActiveBPTreeIdx.WriteNodes(tx.db.opt.RWMode, tx.db.opt.SyncEnable, 1)"),
+  ("tx.go:rotateActiveFile", "call", "BPTreeRootIdx.Persistence(tx.db.getBPTRootPath(fID), 0, tx.db.opt.SyncEnable)"),
+  ("tx.go:rotateActiveFile", "call", "append(tx.db.BPTreeRootIdxes, BPTreeRootIdx)"),
+  ("tx.go:rotateActiveFile", "call", "NewTree()"),
+  ("tx.go:rotateActiveFile", "call", "NewTree()"),
+  ("tx.go:rotateActiveFile", "call", "tx.db.getDataPath(tx.db.MaxFileID)"),
+  ("tx.go:rotateActiveFile", "call", "NewDataFile(path, tx.db.opt.SegmentSize, tx.db.opt.RWMode)")]
+
+/-- **the appliers, regenerated**: both appliers of every structure (the one `Commit` uses and the one `Open`
+uses), the rotation and the scan of the data files are, line for line, the ones the model was written from. -/
+theorem appliers_ok : applierStmts = expectedApplierStmts := by decide +kernel
+
 /-- **`Backup` is one read transaction.** Regenerated from db.go: the body of `DB.Backup` outside the function
 literal does nothing but call `db.View` (no file-system call, no other nutsdb call, no field of `*DB`), and the
 literal handed to `View` calls `filesystem.CopyDir` and nothing else — so every byte Backup reads from the
